@@ -228,6 +228,7 @@ def cancel_propagation(rr, info) -> list:
     info['cancels_tracked'] = len(issued)
     if not issued:
         return out
+    _cancel_point_probes(rr, info, issued, got)
     # a worker that has already ended (attached runtime closed after its
     # only compilation returned, crash) starts nothing further: only
     # workers still alive at idle can be "never told"
@@ -253,6 +254,54 @@ def cancel_propagation(rr, info) -> list:
                     f'cancel before the system falls idle'))
                 return out
     return out
+
+
+def _cancel_point_probes(rr, info, issued, got) -> None:
+    """Reach probes (evidence only, no verdict): in which state of the
+    cancelled work did each cancellation land?  The property quantifies
+    over cancel points "before start, while delayed, while awaiting, after
+    partial map results, after completion"."""
+    started, finished = {}, {}
+    node_of = {}
+    for r in rr.rec:
+        if r[1] == 'start' and r[3][1] is not None:
+            a = tuple(r[3][1])
+            started.setdefault(a, r[0])
+            node_of[r[2]] = a
+        elif r[1] == 'finish' and r[2] in node_of:
+            finished.setdefault(node_of[r[2]], r[0])
+    recv_on_worker = {}
+    for seq, ev, src, dst, desc in C.wire(rr):
+        if ev == 'RECV' and dst.startswith('w'):
+            for a, p in C.submit_addrs(desc):
+                recv_on_worker.setdefault(a, seq)
+    known = set(C.parent_map(rr)) | set(started)
+    for a, t in issued.items():
+        kind = 'client' if a[0] == -1 else 'task'
+        sub = [x for x in known if a in C.ancestors_or_self(rr, x)]
+        n_started = sum(1 for x in sub if started.get(x, 10 ** 12) < t)
+        n_finished = sum(1 for x in sub if finished.get(x, 10 ** 12) < t)
+        n_queued = sum(1 for x in sub
+                       if recv_on_worker.get(x, 10 ** 12) < t
+                       and started.get(x, 10 ** 12) >= t)
+        if finished.get(a, 10 ** 12) < t:
+            cls = 'after_completion'
+        elif n_started == 0:
+            cls = 'before_start'
+        elif n_finished:
+            cls = 'after_partial_results'
+        else:
+            cls = 'while_running_or_awaiting'
+        k = f'cancel_point.{kind}.{cls}'
+        info[k] = info.get(k, 0) + 1
+        if n_queued:
+            k = f'cancel_point.{kind}.with_delayed_or_queued_descendants'
+            info[k] = info.get(k, 0) + 1
+        late = sum(1 for x in sub if started.get(x, 0) > t)
+        if late:
+            info['cancel_point.descendants_started_after_issue'] = \
+                info.get('cancel_point.descendants_started_after_issue',
+                         0) + late
 
 
 def leaks(rr, info, fates) -> list:
